@@ -17,8 +17,8 @@ BIN = os.path.join(TARGET, 'debug', 'reval-replay')
 
 # which pools can witness which property
 FAMILIES = {
-    'C01': ['ops', 'compose'], 'C02': ['ops', 'compose', 'lazy'], 'C03': ['ops', 'compose'], 'C04': ['ops', 'compose'],
-    'C05': ['lazy'], 'C09': ['ruleset'], 'C10': ['ops', 'ruleset', 'builder'], 'C11': ['ruleset', 'lazy'],
+    'C01': ['ops', 'compose', 'text'], 'C02': ['ops', 'compose', 'lazy', 'text'], 'C03': ['ops', 'compose', 'text'], 'C04': ['ops', 'compose', 'text'],
+    'C05': ['lazy', 'text'], 'C09': ['ruleset'], 'C10': ['ops', 'ruleset', 'builder', 'text'], 'C11': ['ruleset', 'lazy'],
     'C15': ['builder'], 'C17': ['convert'], 'C13': ['ser'], 'C06': ['parse'],
 }
 BOUNDS = ('operand pool of 65 boundary values per operand position (every type, its extremes, None, empty/nested containers); '
@@ -26,7 +26,7 @@ BOUNDS = ('operand pool of 65 boundary values per operand position (every type, 
           '4-element lists/maps; rulesets of <= 3 rules from 23 building blocks, 2 consecutive evaluations; builder: 53 function names, '
           'all 3-sequences over 4 rule names through with_rule / with_rules, 5 symbol mixes; convert: type bounds +-1, every pool value as the source of every scalar and collection extraction, lists / maps holding every pool value, a non-convertible element at each position; '
           'parse: every sequence of <= 2 (thorough: <= 3) tokens over a 56-token alphabet through Expr::parse and Rule::parse, out-of-range numerals in every numeric position (and, in every radix, required to be Err), every one-character escape, unicode escape forms, non-ASCII/control characters in 12 templates; '
-          'ser: 88 values covering every serde data-model kind at its limits, nested containers, non-string keys, failing Serialize impls')
+          'text: every pair of operator constructors over 13 leaves / 7 operand pairs, if with equal branches and literal conditions, 27 parsed texts, each against a tree written with the raw enum variants; ser: 88 values covering every serde data-model kind at its limits, nested containers, non-string keys, failing Serialize impls')
 
 _build_cache = {}
 
